@@ -264,8 +264,18 @@ def run(ctx, rep):
     try:
         nv = ev.call_fn(TRK + "new", [Obj("RDH", 0, AP + "rdh::rdh_cru::RdhCru"), Sym("POS")])
         good = isinstance(nv, Agg) and vkey(nv.fields.get("payload_mem_pos")) == "sym(Add(sym(POS),0x40))" and vkey(nv.fields.get("gbt_word_counter")) == "0x0"
-        pad = vkey(nv.fields.get("gbt_word_padding_size_bytes"))
-        good = good and pad == "sym(ite(none(RDH[199:192]),0x6,0x0))"
+        # the padding per word, decided for each of the 256 data-format values: 6 for format 0, none otherwise
+        pads = {}
+        for df_ in range(256):
+            ev.assume = {}
+            ev.assume_bits("RDH", 192, 8, df_)
+            try:
+                nv_ = ev.call_fn(TRK + "new", [Obj("RDH", 0, AP + "rdh::rdh_cru::RdhCru"), Sym("POS")])
+                pv_ = nv_.fields.get("gbt_word_padding_size_bytes") if isinstance(nv_, Agg) else None
+                pads[df_] = pv_.value() if isinstance(pv_, Bits) and pv_.is_const() else vkey(pv_)[:40]
+            finally:
+                ev.assume = {}
+        good = good and all(pads[d_] == (6 if d_ == 0 else 0) for d_ in range(256))
     except Unsupported:
         good, nv = False, None
     rep.check(good, "R7.3", "R7.3|tracker_new", "payload_pos = rdh_pos + 64, counter = 0, pad = 6 iff data_format == 0", TRK + "new",
